@@ -6,6 +6,7 @@ CONSTANTS
   WUDS = @WUDS@
   IWS = @IWS@
   HWRITES = @HWRITES@
+  CLS = @CLS@
   MaxSteps = @STEPS@
 INIT Init
 NEXT Next
